@@ -76,6 +76,7 @@ impl TraitHandler for DebugStructHandler {
                     };
 
                     let ty = &field.ty;
+                    let borrow = super::common::borrow_for_builder(ty);
 
                     if let Some(method) = field_attribute.method {
                         builder_token_stream.extend(super::common::create_format_arg(
@@ -94,9 +95,9 @@ impl TraitHandler for DebugStructHandler {
                         debug_types.push(ty);
 
                         builder_token_stream.extend(if name.is_some() {
-                            quote! (builder.field(::core::stringify!(#key), &&self.#field_name);)
+                            quote! (builder.field(::core::stringify!(#key), #borrow self.#field_name);)
                         } else {
-                            quote! (builder.entry(&Educe__RawString(::core::stringify!(#key)), &&self.#field_name);)
+                            quote! (builder.entry(&Educe__RawString(::core::stringify!(#key)), #borrow self.#field_name);)
                         });
                     }
 
@@ -125,6 +126,7 @@ impl TraitHandler for DebugStructHandler {
                         IdentOrIndex::from_ident_with_index(field.ident.as_ref(), index);
 
                     let ty = &field.ty;
+                    let borrow = super::common::borrow_for_builder(ty);
 
                     if let Some(method) = field_attribute.method {
                         builder_token_stream.extend(super::common::create_format_arg(
@@ -138,7 +140,7 @@ impl TraitHandler for DebugStructHandler {
                     } else {
                         debug_types.push(ty);
 
-                        builder_token_stream.extend(quote! (builder.field(&&self.#field_name);));
+                        builder_token_stream.extend(quote! (builder.field(#borrow self.#field_name);));
                     }
 
                     has_fields = true;
